@@ -338,6 +338,10 @@ def _execute_store(case, stats, log, env, xs, vals, lock, obs_lock, shared):
     frng = random.Random(case["fseed"])
     if case["fault_positions"] != "all" and len(positions) > case["fault_positions"]:
         positions = frng.sample(positions, case["fault_positions"])
+    elif case["fault_positions"] == "all" and len(positions) > 32:
+        # exhaustive up to 32 positions per program; beyond that a seeded sample of 32 (run-time bound)
+        stats["probe.fault_positions_sampled"] = stats.get("probe.fault_positions_sampled", 0) + 1
+        positions = frng.sample(positions, 32)
     pre = [s_ for s_ in case["schedules"] if s_["policy"] == "preempt"]
     for pi_, (ti, k) in enumerate(positions):
         # every other fault lands while other writes are in flight (error under lock contention)
